@@ -6,7 +6,6 @@ package argmapper
 import (
 	"fmt"
 	"reflect"
-	"strings"
 
 	"github.com/hashicorp/go-argmapper/internal/graph"
 	"github.com/hashicorp/go-multierror"
@@ -183,6 +182,7 @@ func (f *Func) redefineInputs(opts ...Arg) (reflect.Type, error) {
 		Type:      structMarkerType,
 		Anonymous: true,
 	})
+	names := map[string]struct{}{}
 	for k, v := range state.InputSet {
 		log.Trace("input", "value", v)
 		if _, ok := inputsProvided[k]; ok {
@@ -193,16 +193,18 @@ func (f *Func) redefineInputs(opts ...Arg) (reflect.Type, error) {
 		case *valueVertex:
 			// Two required values with the same name but different types
 			// can't be represented in one input struct.
-			for _, f := range sf {
-				if f.Name == strings.ToUpper(v.Name) {
-					return nil, fmt.Errorf(
-						"redefined function would require two inputs named %q", v.Name)
-				}
+			if _, ok := names[v.Name]; ok {
+				return nil, fmt.Errorf(
+					"redefined function would require two inputs named %q", v.Name)
 			}
+			names[v.Name] = struct{}{}
 
+			// The name is given by the tag. A name set through a tag
+			// doesn't have to be usable as the name of a field.
 			sf = append(sf, reflect.StructField{
-				Name: strings.ToUpper(v.Name),
+				Name: fmt.Sprintf("V__Name_%d", len(sf)),
 				Type: v.Type,
+				Tag:  reflect.StructTag(fmt.Sprintf("argmapper:%q", v.Name)),
 			})
 
 		case *typedArgVertex:
